@@ -193,9 +193,14 @@ def translateStr (s frm to : String) : String :=
     | none => some c
     | some i => t[i]?)
 
-/-- XPath `round` (§4.4): closest integer, ties towards +infinity -/
+/-- XPath `round` (§4.4): the closest integer, ties towards +infinity; NaN, ±Infinity and ±0 are returned unchanged and a
+value in [-0.5, 0) gives negative zero.  Computed without `x + 0.5` (which rounds): `x - floor x` is exact. -/
 def xround (x : Float) : Float :=
-  if x.isNaN || x.isInf then x else (x + 0.5).floor
+  if x.isNaN || x.isInf || x == 0 then x
+  else
+    let t := x.floor
+    let r := if x - t ≥ 0.5 then t + 1 else t
+    if r == 0 && x < 0 then -0.0 else r
 
 /-- `substring(s, a, b?)` (§4.2): characters at positions p with round(a) ≤ p < round(a) + round(b) -/
 def substringX (s : String) (a : Float) (b : Option Float) : String :=
